@@ -40,6 +40,10 @@ func genString(rt *rapid.T, label string) (s string, class string) {
 		s = strings.Repeat("m", 65535-3) + "€" // multi-byte char ending exactly at the limit
 	case "len-65536":
 		s = strings.Repeat("x", 65536)
+		if rapid.Bool().Draw(rt, label+"MultiByte") {
+			// over the limit in bytes, under it in characters
+			s = strings.Repeat("€", 21846) // 65538 bytes
+		}
 	case "empty":
 		s = ""
 	case "nul":
